@@ -42,6 +42,10 @@ Prefixes ==
       <<o("h1", "A", "d1"), o("h2", "A", "d1"), cad("h1"), o("h3", "A", "d1"), o("h4", "A", "d1"), sf("h4", "c0", "f1", "live"),
         cl("h2"), cl("h3"), w("h4", "c0")>>,
       <<o("h1", "B", "mem"), o("h2", "B", "mem"), cad("h1"), o("h3", "B", "mem"), sf("h3", "c1", "f1", "live"), cl("h2"), cl("h2"), w("h3", "c1")>>,
+      \* an in-memory bucket is deleted through a handle that was closed before, no handle being open
+      <<o("h1", "B", "mem"), w("h1", "c0"), cl("h1"), cad("h1"), om("h2", "B", "mem", "ReOpenExisting")>>,
+      <<o("h1", "A", "mem"), o("h2", "A", "mem"), cl("h1"), cl("h2"), cad("h2"), om("h3", "A", "mem", "CreateNew")>>,
+      <<o("h1", "A", "d1"), w("h1", "c1"), cl("h1"), cad("h1"), om("h2", "A", "d1", "ReOpenExisting")>>,
       \* a checkpointed feed that has delivered something ends because its bucket goes away
       <<o("h1", "A", "d1"), w("h1", "c0"), sf("h1", "c0", "f1", "ckpt"), w("h1", "c0"), cad("h1")>>,
       <<o("h1", "A", "d2"), o("h2", "A", "d2"), sf("h2", "c0", "f1", "ckpt"), w("h1", "c0"), cl("h2"), cl("h1")>>,
